@@ -11,68 +11,6 @@ From PD Require Import SdlIterRef SdlIterProofs.
 Import ListNotations.
 Open Scope nat_scope.
 
-Section Resume.
-Variable c : cfg.
-Hypothesis Hkind : c_kind c = KIter.
-Hypothesis HW : 0 < c_W c.
-Hypothesis HP : 0 < c_P c.
-Hypothesis Hst : c_stateful c = true.
-Notation W := (c_W c).
-
-Variable B : nat -> list (list nat).
-Variable d : sdict.
-Let sn := sd_snapshot d.
-Let cyc0 := (S (sn_last sn)) mod W.
-Let workers := map (fun sv : wsave => wk_restored (fst sv, snd sv)) (sn_workers sn).
-Hypothesis Hws : workers_ok c B cyc0 workers.
-Hypothesis Ha0 : forall w, w < W -> a0 cyc0 w <= nb B w.
-
-Lemma cyc0_lt : cyc0 < W.
-Proof. unfold cyc0. apply Nat.mod_upper_bound. lia. Qed.
-
-Let wk0 : nat -> wk := fun w => nth w workers wk_fresh.
-
-Lemma resume_entries_ok : entries_ok c wk0 workers (sn_workers sn) sn.
-Proof.
-  destruct Hws as [Hlen _]. assert (length (sn_workers sn) = W) as Hl by (unfold workers in Hlen; rewrite map_length in Hlen; exact Hlen).
-  split; [intros w Hw; split; reflexivity|]. split; [exact Hl|]. split; [|reflexivity].
-  intros w Hw. unfold wk0, workers.
-  change wk_fresh with ((fun sv : wsave => wk_restored (fst sv, snd sv)) (0, false)). rewrite map_nth. cbn.
-  destruct (nth w (sn_workers sn) (0, false)); reflexivity.
-Qed.
-
-Theorem resume_main_exact : forall sched, sd_steps d <= length (refsuf W B 0 cyc0) ->
-  let '(sr, sched') := sdl_resume c d sched in
-  outcomes c (S (length (refsuf W B 0 cyc0) - sd_steps d)) sr sched' = map OBatch (skipn (sd_steps d) (refsuf W B 0 cyc0)) ++ [OStop].
-Proof.
-  intros sched Hsteps. unfold sdl_resume. rewrite Hkind, Hst. cbn [negb].
-  fold sn. fold cyc0.
-  replace (map (fun sv : wsave => wk_restored (fst sv, if true then snd sv else false)) (sn_workers sn)) with workers by reflexivity.
-  match goal with |- context [iter_n (try_put_index c) (c_P c * W) ?S] =>
-    assert (S = init0 c cyc0 workers (sn_step sn) (fst (sn_main sn)) (snd (sn_main sn)) (sn_last sn) (sn_workers sn) sn) as -> by reflexivity end.
-  destruct (start_iter c Hkind HW HP B cyc0 cyc0_lt Ha0 wk0 workers (sn_step sn) (fst (sn_main sn)) (snd (sn_main sn)) (sn_last sn) (sn_workers sn) sn Hws resume_entries_ok)
-    as (gw & rd & R & H & HR & HA & HS & Eny & HWw & HX).
-  cbn zeta in H, HR, HA, HS, Eny, HWw, HX.
-  set (s3 := iter_n (try_put_index c) (c_P c * W) _) in *.
-  destruct (replay_iter c Hkind HW HP B cyc0 cyc0_lt wk0 (sd_steps d) gw rd (a0 cyc0) R s3 (refsuf W B 0 cyc0) sched Hsteps H HR HA HS HWw HX)
-    as (s4 & sched4 & gw' & rd' & a' & R' & E & H4 & HR4 & HA4 & HS4 & _ & HW4 & HX4 & _).
-  rewrite E.
-  match goal with |- outcomes c _ ?S _ = _ => set (sF := S) end.
-  assert (agree s4 sF) as Hag by (unfold agree, sF; cbn; repeat split; reflexivity).
-  assert (agreeS s4 sF) as HagS by (split; [exact Hag | split; reflexivity]).
-  assert (m_info sF = m_info s4) as Hinf by reflexivity.
-  pose proof (InvC_ext c B cyc0 gw' rd' a' R' s4 sF H4 Hag ltac:(rewrite Hinf; exact (c_wf _ _ _ _ _ _ _ _ H4)) ltac:(intros; rewrite Hinf; reflexivity) ltac:(rewrite Hinf; reflexivity)) as HF.
-  pose proof (Rest_agree c B gw' rd' R' s4 sF _ HR4 Hag) as HRF.
-  pose proof (Act_agree c gw' rd' a' s4 sF HA4 Hag) as HAF.
-  pose proof (InvS_ext c B (m_ny s4) gw' rd' s4 sF HS4 HagS ltac:(rewrite Hinf; reflexivity)) as HSF.
-  assert (InvW c cyc0 wk0 gw' rd' a' sF) as HWF by (apply (InvW_ext c cyc0 wk0 gw' rd' a' s4 sF HW4); [unfold agreeW; repeat split; reflexivity | intros; reflexivity]).
-  assert (InvX c B cyc0 wk0 gw' rd' sF) as HXF by (apply (InvX_ext c B cyc0 wk0 gw' rd' s4 sF HX4); [unfold agreeX; repeat split; reflexivity | intros; reflexivity]).
-  pose proof (outcomes_iter c Hkind HW HP B cyc0 cyc0_lt wk0 (skipn (sd_steps d) (refsuf W B 0 cyc0)) gw' rd' a' R' sF sched4 HF HRF HAF HSF HWF HXF) as Hout.
-  rewrite skipn_length in Hout. exact Hout.
-Qed.
-
-End Resume.
-
 (* ------------------------------------------------------------------ *)
 (* snapshot_every_n_steps = 0: the snapshot of the iterator never changes *)
 Section NoSnapshots.
@@ -152,6 +90,83 @@ Proof.
 Qed.
 End NoSnapshots.
 
+Lemma iter_put_snap c : forall n s, m_snapshot (iter_n (try_put_index c) n s) = m_snapshot s.
+Proof. induction n as [|n IH]; intros s; [reflexivity|]. cbn [iter_n]. rewrite IH. apply try_put_snap. Qed.
+
+Section Resume.
+Variable c : cfg.
+Hypothesis Hkind : c_kind c = KIter.
+Hypothesis HW : 0 < c_W c.
+Hypothesis HP : 0 < c_P c.
+Hypothesis Hst : c_stateful c = true.
+Notation W := (c_W c).
+
+Variable B : nat -> list (list nat).
+Variable d : sdict.
+Let sn := sd_snapshot d.
+Let cyc0 := (S (sn_last sn)) mod W.
+Let workers := map (fun sv : wsave => wk_restored (fst sv, snd sv)) (sn_workers sn).
+Hypothesis Hws : workers_ok c B cyc0 workers.
+Hypothesis Ha0 : forall w, w < W -> a0 cyc0 w <= nb B w.
+
+Lemma cyc0_lt : cyc0 < W.
+Proof. unfold cyc0. apply Nat.mod_upper_bound. lia. Qed.
+
+Let wk0 : nat -> wk := fun w => nth w workers wk_fresh.
+
+Lemma resume_entries_ok : entries_ok c wk0 workers (sn_workers sn) sn.
+Proof.
+  destruct Hws as [Hlen _]. assert (length (sn_workers sn) = W) as Hl by (unfold workers in Hlen; rewrite map_length in Hlen; exact Hlen).
+  split; [intros w Hw; split; reflexivity|]. split; [exact Hl|]. split; [|reflexivity].
+  intros w Hw. unfold wk0, workers.
+  change wk_fresh with ((fun sv : wsave => wk_restored (fst sv, snd sv)) (0, false)). rewrite map_nth. cbn.
+  destruct (nth w (sn_workers sn) (0, false)); reflexivity.
+Qed.
+
+Lemma resume_state : forall sched, sd_steps d <= length (refsuf W B 0 cyc0) ->
+  exists sr sched' gw rd a R, sdl_resume c d sched = (sr, sched') /\
+    InvC c B cyc0 gw rd a R sr /\ Rest c B gw rd R sr (skipn (sd_steps d) (refsuf W B 0 cyc0)) /\ Act c gw rd a sr /\
+    InvS c B (m_ny sr) gw rd sr /\ InvW c cyc0 wk0 gw rd a sr /\ InvX c B cyc0 wk0 gw rd sr /\
+    m_ny sr = sn_step sn + sd_steps d /\ (sd_steps d = 0 -> m_snapshot sr = sn).
+Proof.
+  intros sched Hsteps. unfold sdl_resume. rewrite Hkind, Hst. cbn [negb].
+  fold sn. fold cyc0.
+  replace (map (fun sv : wsave => wk_restored (fst sv, if true then snd sv else false)) (sn_workers sn)) with workers by reflexivity.
+  match goal with |- context [iter_n (try_put_index c) (c_P c * W) ?S] =>
+    assert (S = init0 c cyc0 workers (sn_step sn) (fst (sn_main sn)) (snd (sn_main sn)) (sn_last sn) (sn_workers sn) sn) as -> by reflexivity end.
+  destruct (start_iter c Hkind HW HP B cyc0 cyc0_lt Ha0 wk0 workers (sn_step sn) (fst (sn_main sn)) (snd (sn_main sn)) (sn_last sn) (sn_workers sn) sn Hws resume_entries_ok)
+    as (gw & rd & R & H & HR & HA & HS & Eny & HWw & HX).
+  cbn zeta in H, HR, HA, HS, Eny, HWw, HX.
+  set (s3 := iter_n (try_put_index c) (c_P c * W) _) in *.
+  assert (m_snapshot s3 = sn) as Esn3 by (unfold s3; rewrite iter_put_snap; reflexivity).
+  destruct (replay_iter c Hkind HW HP B cyc0 cyc0_lt wk0 (sd_steps d) gw rd (a0 cyc0) R s3 (refsuf W B 0 cyc0) sched Hsteps H HR HA HS HWw HX)
+    as (s4 & sched4 & gw' & rd' & a' & R' & E & H4 & HR4 & HA4 & HS4 & Eny4 & HW4 & HX4 & _).
+  rewrite E.
+  match goal with |- exists sr sched', _ = (sr, sched') /\ _ => idtac | |- exists sr sched' gw rd a R, (?S, ?SC) = _ /\ _ => set (sF := S) end.
+  assert (agree s4 sF) as Hag by (unfold agree, sF; cbn; repeat split; reflexivity).
+  assert (agreeS s4 sF) as HagS by (split; [exact Hag | split; reflexivity]).
+  assert (m_info sF = m_info s4) as Hinf by reflexivity.
+  exists sF, sched4, gw', rd', a', R'. split; [reflexivity|].
+  split; [apply (InvC_ext c B cyc0 gw' rd' a' R' s4 sF H4 Hag); [rewrite Hinf; exact (c_wf _ _ _ _ _ _ _ _ H4) | intros; rewrite Hinf; reflexivity | rewrite Hinf; reflexivity]|].
+  split; [exact (Rest_agree c B gw' rd' R' s4 sF _ HR4 Hag)|]. split; [exact (Act_agree c gw' rd' a' s4 sF HA4 Hag)|].
+  split; [exact (InvS_ext c B (m_ny s4) gw' rd' s4 sF HS4 HagS ltac:(rewrite Hinf; reflexivity))|].
+  split; [apply (InvW_ext c cyc0 wk0 gw' rd' a' s4 sF HW4); [unfold agreeW; repeat split; reflexivity | intros; reflexivity]|].
+  split; [apply (InvX_ext c B cyc0 wk0 gw' rd' s4 sF HX4); [unfold agreeX; repeat split; reflexivity | intros; reflexivity]|].
+  split; [change (m_ny sF) with (m_ny s4); rewrite Eny4, Eny; reflexivity|].
+  intros E0. rewrite E0 in E. cbn [replay] in E. injection E as <- _. exact Esn3.
+Qed.
+
+Theorem resume_main_exact : forall sched, sd_steps d <= length (refsuf W B 0 cyc0) ->
+  let '(sr, sched') := sdl_resume c d sched in
+  outcomes c (S (length (refsuf W B 0 cyc0) - sd_steps d)) sr sched' = map OBatch (skipn (sd_steps d) (refsuf W B 0 cyc0)) ++ [OStop].
+Proof.
+  intros sched Hsteps. destruct (resume_state sched Hsteps) as (sr & sched' & gw & rd & a & R & E & H & HR & HA & HS & HWw & HX & _).
+  rewrite E. pose proof (outcomes_iter c Hkind HW HP B cyc0 cyc0_lt wk0 _ gw rd a R sr sched' H HR HA HS HWw HX) as Hout.
+  rewrite skipn_length in Hout. exact Hout.
+Qed.
+
+End Resume.
+
 Section ResumeNoSnapshots.
 Variable c : cfg.
 Hypothesis Hkind : c_kind c = KIter.
@@ -162,9 +177,6 @@ Hypothesis HI0 : c_I c = 0.
 
 Definition snap0 : snapshot :=
   {| sn_step := 0; sn_last := c_W c - 1; sn_main := (0, 0); sn_workers := repeat (0, false) (c_W c) |}.
-
-Lemma iter_put_snap : forall n s, m_snapshot (iter_n (try_put_index c) n s) = m_snapshot s.
-Proof. induction n as [|n IH]; intros s; [reflexivity|]. cbn [iter_n]. rewrite IH. apply try_put_snap. Qed.
 
 Lemma replay_snap : forall k s sched, m_snapshot (fst (replay c k s sched)) = m_snapshot s.
 Proof.
@@ -202,29 +214,8 @@ Qed.
 End ResumeNoSnapshots.
 
 (* ------------------------------------------------------------------ *)
-(* snapshot_every_n_steps = 1 (the default) *)
-Section ResumeEveryStep.
-Variable c : cfg.
-Hypothesis Hkind : c_kind c = KIter.
-Hypothesis HW : 0 < c_W c.
-Hypothesis HP : 0 < c_P c.
-Hypothesis Hst : c_stateful c = true.
-Hypothesis HI1 : c_I c = 1.
-Notation W := (c_W c).
-Notation wstf := (wst c 0 wk_fresh0).
-
-Lemma fut_wsk w : forall j, Fut c (Bw c) w j (wsk c 0 wk_fresh0 w j).
-Proof.
-  induction j as [|j IH].
-  - unfold wsk. cbn. apply fut_fresh, Hkind.
-  - rewrite wsk_S by (cbn; lia). unfold wstep. pose proof (fut_fetch c (Bw c) w j _ t0 IH) as F.
-    destruct (worker_fetch c w (wsk c 0 wk_fresh0 w j) t0) as [[r st] k']. exact (proj2 F).
-Qed.
-
-Lemma fut_restored w j : Fut c (Bw c) w j (wk_restored (wstf w j)).
-Proof. apply (fut_congr c Hkind (Bw c) w j (wsk c 0 wk_fresh0 w j)); [reflexivity | reflexivity | apply fut_wsk]. Qed.
-
-Lemma fut_beyond B w j j' k : Fut c B w j k -> nb B w <= j -> j <= j' -> Fut c B w j' k.
+(* snapshot_every_n_steps = 1 (the default), for any iterator of the family (fresh or built from a state dict) *)
+Lemma fut_beyond c B w j j' k : Fut c B w j k -> nb B w <= j -> j <= j' -> Fut c B w j' k.
 Proof.
   intros H Hn Hj ts. rewrite H. generalize (length ts). intros n. clear H. revert j j' Hn Hj.
   induction n as [|n IH]; intros j j' Hn Hj; [reflexivity|]. cbn [seq map]. rewrite !ans_stop by lia. f_equal. apply IH; lia.
@@ -237,7 +228,7 @@ Proof.
   - cbn [Nat.add]. rewrite nth_error_skipn. rewrite Nat.add_0_r. reflexivity.
 Qed.
 
-Lemma fut_rem B R1 c1 w k : Fut c B w (cnt R1 c1 w) k -> Fut c (Brem B R1 c1) w (a0 c1 w) k.
+Lemma fut_rem c B R1 c1 w k : Fut c B w (cnt R1 c1 w) k -> Fut c (Brem B R1 c1) w (a0 c1 w) k.
 Proof.
   intros H ts. rewrite H. generalize (length ts). intros n. clear H.
   assert (forall i, map (ans B w) (seq (cnt R1 c1 w + i) n) = map (ans (Brem B R1 c1) w) (seq (a0 c1 w + i) n)) as X.
@@ -246,14 +237,47 @@ Proof.
   specialize (X 0). rewrite !Nat.add_0_r in X. exact X.
 Qed.
 
+Lemma nth_map_restored (l : list wsave) w : nth w (map (fun sv : wsave => wk_restored (fst sv, snd sv)) l) wk_fresh = wk_restored (nth w l (0, false)).
+Proof.
+  change wk_fresh with ((fun sv : wsave => wk_restored (fst sv, snd sv)) (0, false)). rewrite map_nth. destruct (nth w l (0, false)); reflexivity.
+Qed.
+
+Section EveryStep.
+Variable c : cfg.
+Hypothesis Hkind : c_kind c = KIter.
+Hypothesis HW : 0 < c_W c.
+Hypothesis HP : 0 < c_P c.
+Hypothesis Hst : c_stateful c = true.
+Hypothesis HI1 : c_I c = 1.
+Notation W := (c_W c).
+
+Section Instance.
+Variable B : nat -> list (list nat).
+Variable cyc0 : nat.
+Hypothesis Hcyc0 : cyc0 < W.
+Variable wk0 : nat -> wk.
+(* the worker machines this iterator started with answer according to B *)
+Hypothesis Hfut0 : forall w, w < W -> Fut c B w (a0 cyc0 w) (wk0 w).
+Notation wstf := (wst c cyc0 wk0).
+
+Lemma fut_wsk w : w < W -> forall j, a0 cyc0 w <= j -> Fut c B w j (wsk c cyc0 wk0 w j).
+Proof.
+  intros Hw j Hj. replace j with (a0 cyc0 w + (j - a0 cyc0 w)) by lia. generalize (j - a0 cyc0 w). intros d. induction d as [|d IH].
+  - rewrite Nat.add_0_r. unfold wsk. rewrite Nat.sub_diag. exact (Hfut0 w Hw).
+  - replace (a0 cyc0 w + S d) with (S (a0 cyc0 w + d)) by lia. rewrite wsk_S by lia. unfold wstep.
+    pose proof (fut_fetch c B w _ _ t0 IH) as F. destruct (worker_fetch c w (wsk c cyc0 wk0 w (a0 cyc0 w + d)) t0) as [[r st] k']. exact (proj2 F).
+Qed.
+
+Lemma fut_restored w j : w < W -> a0 cyc0 w <= j -> Fut c B w j (wk_restored (wstf w j)).
+Proof. intros Hw Hj. apply (fut_congr c Hkind B w j (wsk c cyc0 wk0 w j)); [reflexivity | reflexivity | apply fut_wsk; assumption]. Qed.
 
 (* the entry of worker w written at the last hand-out is its state after ALL its tasks at slots before the pointer that follows
    the handed-out slot (capped at its end-of-shard notice) *)
-Lemma entry_exact gw rd a R s w : InvC c (Bw c) 0 gw rd a R s -> InvX c (Bw c) 0 wk_fresh0 gw rd s -> PostH c (Bw c) gw rd s -> w < W ->
+Lemma entry_exact gw rd a R s w : InvC c B cyc0 gw rd a R s -> InvX c B cyc0 wk0 gw rd s -> PostH c B gw rd s -> w < W ->
   let kk := m_rcvd s - 1 in
   let R1 := if S (gw kk) =? W then S (rd kk) else rd kk in
   let c1 := if S (gw kk) =? W then 0 else S (gw kk) in
-  exists j, nth w (m_wsnap s) (0, false) = wstf w j /\ (j = cnt R1 c1 w \/ (nb (Bw c) w < j /\ j <= cnt R1 c1 w)).
+  exists j, nth w (m_wsnap s) (0, false) = wstf w j /\ a0 cyc0 w <= j /\ (j = cnt R1 c1 w \/ (nb B w < j /\ j <= cnt R1 c1 w)).
 Proof.
   intros H HX HPo Hw. cbn zeta. destruct (HPo HI1) as (Hr0 & _ & _ & _ & Hdk).
   set (kk := m_rcvd s - 1) in *. set (u := gw kk) in *.
@@ -261,8 +285,13 @@ Proof.
   assert (u < W) as Hu by (apply (c_gw _ _ _ _ _ _ _ _ H); lia).
   set (R1 := if S u =? W then S (rd kk) else rd kk). set (c1 := if S u =? W then 0 else S u).
   assert (c1 < W) as Hc1 by (unfold c1; destruct (Nat.eqb_spec (S u) W); lia).
+  pose proof (c_base _ _ _ _ _ _ _ _ H kk ltac:(lia)) as Hbase. fold u in Hbase.
+  assert (a0 cyc0 w <= cnt R1 c1 w) as Ha0c.
+  { unfold a0, cnt, b2n, R1, c1. destruct (Nat.eqb_spec (S u) W); repeat match goal with |- context [?x <? ?y] => destruct (Nat.ltb_spec x y) end; lia. }
   destruct (x_s _ _ _ _ _ _ _ HX HI1 w Hw) as (j & Ej & Hmax & Hj). exists j. split; [exact Ej|].
-  (* tasks before the receive pointer have slots <= slot kk, the others have later slots *)
+  assert (a0 cyc0 w <= j) as Haj.
+  { destruct Hj as [->|(t & T1 & T2 & T3 & T4)]; [lia|]. unfold a0. destruct (w <? cyc0); lia. }
+  split; [exact Haj|].
   assert (forall t, t < m_rcvd s -> gw t = w -> rd t < cnt R1 c1 w) as Hbefore.
   { intros t Ht Hg. destruct (Nat.eq_dec t kk) as [->|Hne].
     - fold u in Hg. subst w. unfold cnt, b2n, R1, c1. destruct (Nat.eqb_spec (S u) W); [destruct (Nat.ltb_spec u 0); lia | destruct (Nat.ltb_spec u (S u)); lia].
@@ -272,98 +301,188 @@ Proof.
   { intros t Ht Hg. pose proof (c_mono _ _ _ _ _ _ _ _ H kk t ltac:(lia) ltac:(lia)) as M. fold u in M. rewrite Hg in M.
     unfold cnt, b2n, R1, c1. destruct (Nat.eqb_spec (S u) W); [destruct (Nat.ltb_spec w 0) | destruct (Nat.ltb_spec w (S u))]; lia. }
   assert (j <= cnt R1 c1 w) as Hle.
-  { destruct Hj as [->|(t & T1 & T2 & T3 & T4)]; [cbn; lia|]. specialize (Hbefore t T1 T2). lia. }
-  destruct (Nat.le_gt_cases j (nb (Bw c) w)) as [Hjn|Hjn]; [left | right; split; [exact Hjn | exact Hle]].
-  (* j <= nb w: every round below cnt is a passed task, hence below j *)
+  { destruct Hj as [->|(t & T1 & T2 & T3 & T4)]; [exact Ha0c|]. specialize (Hbefore t T1 T2). lia. }
+  destruct (Nat.le_gt_cases j (nb B w)) as [Hjn|Hjn]; [left | right; split; [exact Hjn | exact Hle]].
   destruct (Nat.eq_dec j (cnt R1 c1 w)) as [E|NE]; [exact E|exfalso].
   assert (j < cnt R1 c1 w) as Hlt by lia.
-  (* round j of worker w is a task *)
   destruct (c_d _ _ _ _ _ _ _ _ H w Hw) as (D1 & D2 & D3).
   assert (j < dsp a s w) as Hjd.
   { destruct (act s w) eqn:Ea.
-    - (* active: dispatched count = slots passed by the dispatch pointer >= slots before the receive pointer *)
-      destruct (Nat.le_gt_cases (dsp a s w) j) as [Hc|Hc]; [|exact Hc]. exfalso.
-      (* the last passed task kk lies below the dispatch pointer *)
+    - destruct (Nat.le_gt_cases (dsp a s w) j) as [Hc|Hc]; [|exact Hc]. exfalso.
       destruct (c_d _ _ _ _ _ _ _ _ H u Hu) as (_ & D2u & D3u). specialize (D2u kk ltac:(lia) eq_refl).
       assert (dsp a s u <= cnt R (m_cyc s) u) as Hdu by (destruct (act s u); lia).
       pose proof (c_cyc _ _ _ _ _ _ _ _ H) as Hcyc.
       revert Hlt Hc D3 D2u Hdu. unfold cnt, b2n, R1, c1. generalize (dsp a s w) (dsp a s u). intros dw du.
       destruct (Nat.eqb_spec (S u) W); repeat match goal with |- context [?x <? ?y] => destruct (Nat.ltb_spec x y) end; lia.
     - lia. }
-  destruct (D1 j ltac:(cbn; lia)) as (t & T1 & T2 & T3).
+  destruct (D1 j ltac:(lia)) as (t & T1 & T2 & T3).
   destruct (Nat.lt_ge_cases t (m_rcvd s)) as [Hp|Hp].
   - specialize (Hmax t Hp T2 ltac:(lia)). lia.
   - specialize (Hafter t ltac:(lia) T2). lia.
 Qed.
 
+End Instance.
 
-Lemma nth_map_restored (l : list wsave) w : nth w (map (fun sv : wsave => wk_restored (fst sv, snd sv)) l) wk_fresh = wk_restored (nth w l (0, false)).
+(* a GOOD state of an iterator of the family, snapshot interval 1: all invariants, and a snapshot that describes the slot from
+   which the remaining stream `rest` starts, with exact worker entries *)
+Definition SnapOK (B : nat -> list (list nat)) (cyc0 : nat) (wk0 : nat -> wk) (rest : list (list nat)) (s : ms) : Prop :=
+  sn_step (m_snapshot s) = m_ny s /\ length (sn_workers (m_snapshot s)) = W /\
+  exists R1 c1, c1 < W /\ S (sn_last (m_snapshot s)) mod W = c1 /\ (0 < R1 \/ cyc0 <= c1) /\ refsuf W B R1 c1 = rest /\
+    forall w, w < W -> exists j, nth w (sn_workers (m_snapshot s)) (0, false) = wst c cyc0 wk0 w j /\ a0 cyc0 w <= j /\
+                                 (j = cnt R1 c1 w \/ (nb B w < j /\ j <= cnt R1 c1 w)).
+
+Definition Good1 (rest : list (list nat)) (s : ms) : Prop :=
+  exists B cyc0 wk0 gw rd a R, cyc0 < W /\ (forall w, w < W -> a0 cyc0 w <= nb B w) /\
+    (forall w, w < W -> Fut c B w (a0 cyc0 w) (wk0 w)) /\
+    InvC c B cyc0 gw rd a R s /\ Rest c B gw rd R s rest /\ Act c gw rd a s /\ InvS c B (m_ny s) gw rd s /\
+    InvW c cyc0 wk0 gw rd a s /\ InvX c B cyc0 wk0 gw rd s /\ SnapOK B cyc0 wk0 rest s.
+
+(* (A) the start state of any iterator of the family whose snapshot entry is the state it was built from *)
+Lemma start_good B cyc0 wk0 workers ny0 siy0 samp0 last0 wsnap snap :
+  cyc0 < W -> (forall w, w < W -> a0 cyc0 w <= nb B w) -> workers_ok c B cyc0 workers -> entries_ok c wk0 workers wsnap snap ->
+  sn_step snap = ny0 -> S (sn_last snap) mod W = cyc0 ->
+  Good1 (refsuf W B 0 cyc0) (iter_n (try_put_index c) (c_P c * W) (init0 c cyc0 workers ny0 siy0 samp0 last0 wsnap snap)).
 Proof.
-  change wk_fresh with ((fun sv : wsave => wk_restored (fst sv, snd sv)) (0, false)). rewrite map_nth. destruct (nth w l (0, false)); reflexivity.
+  intros Hc0 Ha0 Hok Hent Est Ela.
+  destruct (start_iter c Hkind HW HP B cyc0 Hc0 Ha0 wk0 workers ny0 siy0 samp0 last0 wsnap snap Hok Hent) as (gw & rd & R & H & HR & HA & HS & Eny & HWw & HX).
+  cbn zeta in *. set (s := iter_n (try_put_index c) (c_P c * W) _) in *.
+  assert (m_snapshot s = snap) as Esn by (unfold s; rewrite iter_put_snap; reflexivity).
+  destruct Hent as (E1 & E2 & E3 & E4). destruct Hok as [Hlen Hws].
+  exists B, cyc0, wk0, gw, rd, (a0 cyc0), R. split; [exact Hc0|]. split; [exact Ha0|]. split.
+  { intros w Hw. destruct (Hws w Hw) as (_ & _ & F). apply (fut_congr c Hkind B w _ (nth w workers wk_fresh)); [exact (proj1 (E1 w Hw)) | exact (proj2 (E1 w Hw)) | exact F]. }
+  split; [exact H|]. split; [exact HR|]. split; [exact HA|]. split; [exact HS|]. split; [exact HWw|]. split; [exact HX|].
+  unfold SnapOK. rewrite Esn, Eny. split; [exact Est|]. split; [rewrite E4; exact E2|].
+  exists 0, cyc0. split; [exact Hc0|]. split; [exact Ela|]. split; [right; lia|]. split; [reflexivity|].
+  intros w Hw. exists (a0 cyc0 w). rewrite E4, (E3 w Hw), (wst_a0 c cyc0 wk0 w). split; [reflexivity|]. split; [lia|]. left. apply a0_cnt.
 Qed.
 
-(* C01, iterable datasets with their own state, snapshot_every_n_steps = 1 (the default): a checkpoint at ANY batch, under EVERY pair
-   of arrival schedules, resumes the exact remaining stream *)
+(* (B) one more batch *)
+Lemma step_good b rest s sched : Good1 (b :: rest) s ->
+  exists s' sched', sdl_next c s sched = (OBatch b, s', sched') /\ Good1 rest s'.
+Proof.
+  intros (B & cyc0 & wk0 & gw & rd & a & R & Hc0 & Ha0 & Hf0 & H & HR & HA & HS & HWw & HX & _).
+  destruct (sdl_next_iter c Hkind HW HP B cyc0 Hc0 wk0 gw rd a R s (b :: rest) sched H HR HA HS HWw HX)
+    as (s' & sched' & gw' & rd' & a' & R' & E & H' & HR' & HA' & HS' & Eny & HW' & HX' & HP').
+  exists s', sched'. split; [exact E|].
+  exists B, cyc0, wk0, gw', rd', a', R'. split; [exact Hc0|]. split; [exact Ha0|]. split; [exact Hf0|].
+  split; [exact H'|]. split; [exact HR'|]. split; [exact HA'|]. split; [exact HS'|]. split; [exact HW'|]. split; [exact HX'|].
+  destruct (HP' HI1) as (Hr0 & Psn & Pst & Pla & Pdk).
+  set (kk := m_rcvd s' - 1) in *. set (u := gw' kk) in *.
+  pose proof (c_kn _ _ _ _ _ _ _ _ H') as Hkn.
+  assert (u < W) as Hu by (apply (c_gw _ _ _ _ _ _ _ _ H'); lia).
+  set (R1 := if S u =? W then S (rd' kk) else rd' kk). set (c1 := if S u =? W then 0 else S u).
+  assert (c1 < W) as Hc1 by (unfold c1; destruct (Nat.eqb_spec (S u) W); lia).
+  pose proof (c_base _ _ _ _ _ _ _ _ H' kk ltac:(lia)) as Hbase. fold u in Hbase.
+  assert (0 < R1 \/ cyc0 <= c1) as Hb1 by (unfold R1, c1; destruct (Nat.eqb_spec (S u) W); lia).
+  unfold SnapOK. split; [exact Pst|]. split; [rewrite Psn; exact (w_len _ _ _ _ _ _ _ HW')|].
+  exists R1, c1. split; [exact Hc1|]. split.
+  { rewrite Pla. fold u. unfold c1. destruct (Nat.eqb_spec (S u) W) as [EW|NW]; [rewrite EW; apply Nat.mod_same; lia | apply Nat.mod_small; lia]. }
+  split; [exact Hb1|]. split.
+  - assert (kk < m_send s') as Hkks by lia.
+    destruct (c_d _ _ _ _ _ _ _ _ H' u Hu) as (_ & D2u & D3u). specialize (D2u kk Hkks eq_refl).
+    assert (dsp a' s' u <= cnt R' (m_cyc s') u) as Hdu by (destruct (act s' u); lia).
+    pose proof (c_cyc _ _ _ _ _ _ _ _ H') as Hcyc.
+    rewrite (walk_rest c HW HP B cyc0 Hc0 gw' rd' a' R' s' H' _ R1 c1 (m_rcvd s') eq_refl); [symmetry; exact HR' | | exact Hc1 | exact Hb1 | exact Hkn | | ].
+    + revert D2u Hdu. unfold cnt, b2n, R1, c1. generalize (dsp a' s' u). intros du.
+      destruct (Nat.eqb_spec (S u) W); repeat match goal with |- context [?x <? ?y] => destruct (Nat.ltb_spec x y) end; lia.
+    + intros t Ht. pose proof (c_mono _ _ _ _ _ _ _ _ H' kk t ltac:(lia) ltac:(lia)) as M. fold u in M.
+      pose proof (c_gw _ _ _ _ _ _ _ _ H' t ltac:(lia)). unfold R1, c1. destruct (Nat.eqb_spec (S u) W); lia.
+    + intros t Ht. destruct (Nat.eq_dec t kk) as [->|Hne]; [fold u; unfold R1, c1; destruct (Nat.eqb_spec (S u) W); lia|].
+      pose proof (c_mono _ _ _ _ _ _ _ _ H' t kk ltac:(lia) ltac:(lia)) as M. fold u in M. unfold R1, c1. destruct (Nat.eqb_spec (S u) W); lia.
+  - intros w Hw. rewrite Psn. destruct (entry_exact B cyc0 Hc0 wk0 gw' rd' a' R' s' w H' HX' HP' Hw) as (j & Ej & Haj & Hj). exists j. auto.
+Qed.
+
+(* (C) k more batches *)
+Lemma replay_good : forall k rest s sched, k <= length rest -> Good1 rest s ->
+  exists s' sched', replay c k s sched = (s', sched') /\ Good1 (skipn k rest) s'.
+Proof.
+  induction k as [|k IH]; intros rest s sched Hk HG; [exists s, sched; auto|].
+  destruct rest as [|b rest]; [cbn in Hk; lia|].
+  destruct (step_good b rest s sched HG) as (s1 & sched1 & E & HG1).
+  destruct (IH rest s1 sched1 ltac:(cbn in Hk; lia) HG1) as (s' & sched' & E' & HG').
+  exists s', sched'. cbn [replay skipn]. rewrite E. auto.
+Qed.
+
+(* (D) checkpoint and resume: again a good state, with the same remaining stream *)
+Lemma resume_good rest s sched : Good1 rest s ->
+  exists sr sched', sdl_resume c (state_dict s) sched = (sr, sched') /\ Good1 rest sr.
+Proof.
+  intros (B & cyc0 & wk0 & gw & rd & a & R & Hc0 & Ha0 & Hf0 & H & HR & HA & HS & HWw & HX & Pst & Plen & R1 & c1 & Hc1 & Ela & Hb1 & Eref & Hent).
+  set (d := state_dict s).
+  assert (sd_steps d = 0) as Est0 by (unfold d; cbn [state_dict sd_steps]; lia).
+  set (B1 := Brem B R1 c1).
+  set (wk1 := fun w => nth w (map (fun sv : wsave => wk_restored (fst sv, snd sv)) (sn_workers (sd_snapshot d))) wk_fresh).
+  assert (forall w, w < W -> a0 c1 w <= nb B1 w) as Ha1.
+  { intros w _. unfold a0, nb, B1, Brem. destruct (w <? c1); cbn [length]; lia. }
+  assert (workers_ok c B1 c1 (map (fun sv : wsave => wk_restored (fst sv, snd sv)) (sn_workers (m_snapshot s)))) as Hwok.
+  { split; [rewrite map_length; exact Plen|].
+    intros w Hw. rewrite nth_map_restored. split; [reflexivity|]. split; [reflexivity|].
+    destruct (Hent w Hw) as (j & Ej & Haj & Hj). rewrite Ej. apply fut_rem.
+    destruct Hj as [->|[Hj1 Hj2]]; [apply (fut_restored B cyc0 Hc0 wk0 Hf0 w _ Hw Haj)|].
+    apply (fut_beyond c B w j); [apply (fut_restored B cyc0 Hc0 wk0 Hf0 w j Hw Haj) | lia | exact Hj2]. }
+  pose proof (resume_state c Hkind HW HP Hst B1 d) as T. change (sd_snapshot d) with (m_snapshot s) in T. rewrite Ela in T.
+  specialize (T Hwok Ha1 sched ltac:(rewrite Est0; lia)).
+  destruct T as (sr & sched' & gw1 & rd1 & a1 & R1' & E & H1 & HR1 & HA1 & HS1 & HW1 & HX1 & Eny1 & Esn1).
+  exists sr, sched'. split; [exact E|]. rewrite Est0 in *. cbn [skipn] in HR1. specialize (Esn1 eq_refl).
+  assert (refsuf W B1 0 c1 = rest) as Ecan by (unfold B1; rewrite (refsuf_canon W B HW R1 c1 Hc1); exact Eref).
+  rewrite Ecan in HR1.
+  exists B1, c1, wk1, gw1, rd1, a1, R1'. split; [exact Hc1|]. split; [exact Ha1|].
+  split; [intros w Hw; exact (proj2 (proj2 (proj2 Hwok w Hw)))|].
+  split; [exact H1|]. split; [exact HR1|]. split; [exact HA1|]. split; [exact HS1|]. split; [exact HW1|]. split; [exact HX1|].
+  unfold SnapOK. rewrite Esn1. split; [lia|]. split; [exact Plen|].
+  exists 0, c1. split; [exact Hc1|]. split; [exact Ela|]. split; [right; lia|]. split; [exact Ecan|].
+  intros w Hw. exists (a0 c1 w). rewrite (wst_a0 c c1 wk1 w). split.
+  - unfold wk1. change (sd_snapshot d) with (m_snapshot s). rewrite nth_map_restored. destruct (nth w (sn_workers (m_snapshot s)) (0, false)); reflexivity.
+  - split; [lia|]. left. apply a0_cnt.
+Qed.
+
+(* (E) what a good state still yields *)
+Lemma good_outcomes rest s sched : Good1 rest s -> outcomes c (S (length rest)) s sched = map OBatch rest ++ [OStop].
+Proof.
+  intros (B & cyc0 & wk0 & gw & rd & a & R & Hc0 & Ha0 & Hf0 & H & HR & HA & HS & HWw & HX & _).
+  exact (outcomes_iter c Hkind HW HP B cyc0 Hc0 wk0 rest gw rd a R s sched H HR HA HS HWw HX).
+Qed.
+
+Lemma fresh_good : Good1 (reference c) (sdl_fresh c).
+Proof.
+  pose proof (start_good (Bw c) 0 wk_fresh0 (repeat wk_fresh W) 0 0 0 (W - 1) (repeat (0, false) W) (snap_fresh c) HW
+                ltac:(intros w _; cbn; lia) (fresh_workers_ok c Hkind) (fresh_entries_ok c (snap_fresh c) eq_refl) eq_refl) as G.
+  rewrite (refsuf_start c Hkind HW) in G. apply G.
+  cbn. replace (S (W - 1)) with W by lia. apply Nat.mod_same. lia.
+Qed.
+
+(* (F) chains: k1 batches, checkpoint + resume, k2 batches, checkpoint + resume, ... *)
+Lemma chain_good : forall ks rest s sched, fold_right Nat.add 0 ks <= length rest -> Good1 rest s ->
+  exists s' sched', chain c ks s sched = (s', sched') /\ Good1 (skipn (fold_right Nat.add 0 ks) rest) s'.
+Proof.
+  induction ks as [|j ks IH]; intros rest s sched Hk HG; [exists s, sched; auto|].
+  cbn [fold_right] in Hk. destruct (replay_good j rest s sched ltac:(lia) HG) as (s1 & sc1 & E1 & G1).
+  destruct (resume_good (skipn j rest) s1 sc1 G1) as (s2 & sc2 & E2 & G2).
+  destruct (IH (skipn j rest) s2 sc2 ltac:(rewrite skipn_length; lia) G2) as (s' & sched' & E' & G').
+  exists s', sched'. cbn [chain fold_right]. rewrite E1, E2. split; [exact E'|]. rewrite skipn_skipn in G'. exact G'.
+Qed.
+
+(* C01, iterable datasets with their own state, snapshot_every_n_steps = 1 (the default): any finite CHAIN of checkpoint/resume,
+   every arrival schedule throughout, still yields exactly the remaining stream *)
+Theorem iter_resume_chain_I1 : forall ks sched, fold_right Nat.add 0 ks <= length (reference c) ->
+  let '(s, sched') := chain c ks (sdl_fresh c) sched in
+  let p := fold_right Nat.add 0 ks in
+  outcomes c (S (length (reference c) - p)) s sched' = map OBatch (skipn p (reference c)) ++ [OStop].
+Proof.
+  intros ks sched Hk. destruct (chain_good ks (reference c) (sdl_fresh c) sched Hk fresh_good) as (s' & sched' & E & G).
+  rewrite E. cbn zeta. pose proof (good_outcomes _ s' sched' G) as Ho. rewrite skipn_length in Ho. exact Ho.
+Qed.
+
+(* a single checkpoint at any batch k *)
 Theorem iter_resume_exact_I1 : forall k sched1 sched2, k <= length (reference c) ->
   let '(sk, _) := replay c k (sdl_fresh c) sched1 in
   let '(sr, sched') := sdl_resume c (state_dict sk) sched2 in
   outcomes c (S (length (reference c) - k)) sr sched' = map OBatch (skipn k (reference c)) ++ [OStop].
 Proof.
   intros k sched1 sched2 Hk.
-  destruct (fresh_start c Hkind HW HP) as (gw & rd & R & H & HR & HA & HS & Eny & HWw & HX).
-  destruct (replay_iter c Hkind HW HP (Bw c) 0 HW wk_fresh0 k gw rd (a0 0) R (sdl_fresh c) (reference c) sched1 Hk H HR HA HS HWw HX)
-    as (sk & sched1' & gw' & rd' & a' & R' & E & H' & HR' & _ & _ & Enk & HW' & HX' & HP').
-  rewrite E. rewrite Eny in Enk. cbn in Enk.
-  destruct (Nat.eq_dec k 0) as [->|Hk0].
-  - (* nothing handed out yet: the initial snapshot *)
-    cbn [replay] in E. injection E as <- _.
-    assert (m_snapshot (sdl_fresh c) = snap0 c) as Hs0 by (unfold sdl_fresh; rewrite iter_put_snap; reflexivity).
-    assert (state_dict (sdl_fresh c) = {| sd_snapshot := snap0 c; sd_steps := 0; sd_finished := m_finished (sdl_fresh c) |}) as ->.
-    { unfold state_dict. rewrite Hs0, Eny. reflexivity. }
-    set (d := {| sd_snapshot := snap0 c; sd_steps := 0; sd_finished := m_finished (sdl_fresh c) |}).
-    assert (S (sn_last (sd_snapshot d)) mod c_W c = 0) as E0.
-    { cbn. replace (S (c_W c - 1)) with (c_W c) by lia. apply Nat.mod_same. lia. }
-    pose proof (resume_main_exact c Hkind HW HP Hst (Bw c) d) as T. rewrite E0 in T.
-    assert (map (fun sv : wsave => wk_restored (fst sv, snd sv)) (sn_workers (sd_snapshot d)) = repeat wk_fresh (c_W c)) as Ew.
-    { unfold d. cbn [sd_snapshot sn_workers snap0]. generalize (c_W c). intros n. induction n as [|n IH]; [reflexivity|]. cbn [repeat map]. rewrite IH. reflexivity. }
-    rewrite Ew in T. specialize (T (fresh_workers_ok c Hkind) ltac:(intros w _; cbn; lia) sched2).
-    rewrite (refsuf_start c Hkind HW) in T. exact (T Hk).
-  - (* at least one batch handed out: the snapshot taken at the last hand-out *)
-    specialize (HP' ltac:(lia)). destruct (HP' HI1) as (Hr0 & Psn & Pst & Pla & Pdk).
-    set (kk := m_rcvd sk - 1) in *. set (u := gw' kk) in *.
-    pose proof (c_kn _ _ _ _ _ _ _ _ H') as Hkn.
-    assert (u < W) as Hu by (apply (c_gw _ _ _ _ _ _ _ _ H'); lia).
-    set (R1 := if S u =? W then S (rd' kk) else rd' kk). set (c1 := if S u =? W then 0 else S u).
-    assert (c1 < W) as Hc1 by (unfold c1; destruct (Nat.eqb_spec (S u) W); lia).
-    assert (S (sn_last (sd_snapshot (state_dict sk))) mod W = c1) as Ec1.
-    { cbn [state_dict sd_snapshot]. rewrite Pla. fold u. unfold c1. destruct (Nat.eqb_spec (S u) W) as [EW|NW]; [rewrite EW; apply Nat.mod_same; lia | apply Nat.mod_small; lia]. }
-    set (B1 := Brem (Bw c) R1 c1).
-    pose proof (resume_main_exact c Hkind HW HP Hst B1 (state_dict sk)) as T. rewrite Ec1 in T.
-    assert (sd_steps (state_dict sk) = 0) as Est0 by (cbn [state_dict sd_steps]; rewrite Pst; lia).
-    (* the remaining stream, read from the slot after the last handed-out one *)
-    assert (refsuf W B1 0 c1 = skipn k (reference c)) as Eref.
-    { unfold B1. rewrite (refsuf_canon W (Bw c) HW R1 c1 Hc1).
-      assert (kk < m_send sk) as Hkks by lia.
-      destruct (c_d _ _ _ _ _ _ _ _ H' u Hu) as (_ & D2u & D3u). specialize (D2u kk Hkks eq_refl).
-      assert (dsp a' sk u <= cnt R' (m_cyc sk) u) as Hdu by (destruct (act sk u); lia).
-      pose proof (c_cyc _ _ _ _ _ _ _ _ H') as Hcyc.
-      rewrite (walk_rest c HW HP (Bw c) 0 HW gw' rd' a' R' sk H' _ R1 c1 (m_rcvd sk) eq_refl); [symmetry; exact HR' | | exact Hc1 | right; lia | exact Hkn | | ].
-      - revert D2u Hdu. unfold cnt, b2n, R1, c1. generalize (dsp a' sk u). intros du.
-        destruct (Nat.eqb_spec (S u) W); repeat match goal with |- context [?x <? ?y] => destruct (Nat.ltb_spec x y) end; lia.
-      - intros t Ht. pose proof (c_mono _ _ _ _ _ _ _ _ H' kk t ltac:(lia) ltac:(lia)) as M. fold u in M.
-        pose proof (c_gw _ _ _ _ _ _ _ _ H' t ltac:(lia)). unfold R1, c1. destruct (Nat.eqb_spec (S u) W); lia.
-      - intros t Ht. destruct (Nat.eq_dec t kk) as [->|Hne]; [fold u; unfold R1, c1; destruct (Nat.eqb_spec (S u) W); lia|].
-        pose proof (c_mono _ _ _ _ _ _ _ _ H' t kk ltac:(lia) ltac:(lia)) as M. fold u in M. unfold R1, c1. destruct (Nat.eqb_spec (S u) W); lia. }
-    assert (workers_ok c B1 c1 (map (fun sv : wsave => wk_restored (fst sv, snd sv)) (sn_workers (sd_snapshot (state_dict sk))))) as Hwok.
-    { cbn [state_dict sd_snapshot]. rewrite Psn. split; [rewrite map_length; exact (w_len _ _ _ _ _ _ _ HW')|].
-      intros w Hw. rewrite nth_map_restored. split; [reflexivity|]. split; [reflexivity|].
-      destruct (entry_exact gw' rd' a' R' sk w H' HX' HP' Hw) as (j & Ej & Hj). fold kk u R1 c1 in Hj. rewrite Ej.
-      apply fut_rem. destruct Hj as [->|[Hj1 Hj2]]; [apply fut_restored|].
-      apply (fut_beyond (Bw c) w j); [apply fut_restored | lia | exact Hj2]. }
-    assert (forall w, w < W -> a0 c1 w <= nb B1 w) as Ha0.
-    { intros w _. unfold a0, nb, B1, Brem. destruct (w <? c1); cbn [length]; lia. }
-    specialize (T Hwok Ha0 sched2). rewrite Est0, Eref in T. specialize (T ltac:(lia)).
-    destruct (sdl_resume c (state_dict sk) sched2) as [sr sched']. rewrite Nat.sub_0_r, skipn_length in T. cbn [skipn] in T. exact T.
+  destruct (replay_good k (reference c) (sdl_fresh c) sched1 Hk fresh_good) as (sk & sc1 & E1 & G1). rewrite E1.
+  destruct (resume_good _ sk sched2 G1) as (sr & sched' & E2 & G2). rewrite E2.
+  pose proof (good_outcomes _ sr sched' G2) as Ho. rewrite skipn_length in Ho. exact Ho.
 Qed.
 
-End ResumeEveryStep.
+End EveryStep.
